@@ -4,6 +4,7 @@ import Hl7.Model.Message
 import Hl7.Model.Mllp
 import Hl7.Model.Validate
 import Hl7.Model.Heap
+import Hl7.Model.ProfileMsg
 import Hl7.Model.WF
 import Hl7.Gen.Known
 import Hl7.Gen.All
@@ -126,6 +127,24 @@ def heapRun (nodes maxreps ops : String) : String :=
     (r.1, out ++ [tag ++ " " ++ heapShow r.1])
   "|".intercalate ((ops.splitOn ";").foldl step (h0, [])).2
 
+/-- edits: `C.<tab>.<parent>.<child>.<min>.<max>` | `F.<tab>.<parent>.<child>` | `R.<segment>.<field>.<L|S>.<dt>`, `;`-separated, `-` for none;
+    tab ∈ m (message) g (group) s (segment) d (datatype struct) -/
+def parseTab (s : String) : Option Prof.Tab :=
+  match s with | "m" => some .messages | "g" => some .groups | "s" => some .segments | "d" => some .structs | _ => none
+
+def parseEdit (s : String) : Option Prof.Edit :=
+  match s.splitOn "." with
+  | ["C", t, p, c, mn, mx] => (parseTab t).map fun t => .card t p c mn.toNat! (mx.toInt?.getD (-1))
+  | ["F", t, p, c] => (parseTab t).map fun t => .forbid t p c
+  | ["R", p, c, "L", dt] => some (.retype p c .leaf dt none)
+  | ["R", p, c, "S", dt] => some (.retype p c .seq dt (some dt))
+  | _ => none
+
+def parseProfile (keys edits : String) : Prof.Profile :=
+  { keys := if keys == "-" then [] else (keys.splitOn ",").filterMap fun k =>
+      match k.splitOn ":" with | [n, "l"] => some (n, true) | [n, _] => some (n, false) | _ => none,
+    edits := if edits == "-" then [] else (edits.splitOn ";").filterMap parseEdit }
+
 def handle (line : String) : String :=
   match line.splitOn " " with
   | ["ESC", v27, ec, hx] =>
@@ -196,6 +215,23 @@ def handle (line : String) : String :=
         match Val.validateMessage T m with
         | .ok errs => "ok " ++ "|".intercalate (errs.map (·.show))
         | .error e => "valexc " ++ e.show
+  | ["PMSG", lvl, fg, keys, edits, hx] =>
+    -- parse_message(text, message_profile=p) ; to_er7 ; validate against the profile
+    let p := parseProfile keys edits
+    match Prof.parseMessageP Hl7.Gen.tables Defaults.std p (unhex hx.toList) (lvl == "S") (fg == "1") with
+    | .error e => "exc " ++ e.show
+    | .ok m =>
+      match tablesFor m.version with
+      | none => "bad-version"
+      | some T0 =>
+        let T := Prof.applyAll p.edits T0
+        let enc := match Msg.encMessage T m with
+          | .ok t => "ok " ++ tohex t ++ " " ++ showNodes m.kids
+          | .error e => "encexc " ++ e.show ++ " " ++ showNodes m.kids
+        let val := match Val.validateMessage T m with
+          | .ok errs => "ok " ++ "|".intercalate (errs.map (·.show))
+          | .error e => "valexc " ++ e.show
+        enc ++ " # " ++ val
   | ["VALS", ver, lvl, ec, hx] =>
     match tablesFor ver, parseEC ec with
     | some T, some ec =>
